@@ -292,6 +292,12 @@ theorem ids_unique_iff_print_injective (g : LGraph) (c : Bool) (h : NodesNodup g
   rw [nodeIds_eq]
   exact nodup_map_iff (printItem g) (items_nodup g c h)
 
+/-- the executable class test the driver reports per case (`print_injective`) decides `PrintInjective` -/
+theorem print_injective_decided (g : LGraph) (c : Bool) (h : NodesNodup g) :
+    nodupb ((items g c).map (printItem g)) = true ↔ PrintInjective g c := by
+  rw [nodupb_iff]
+  exact nodup_map_iff (printItem g) (items_nodup g c h)
+
 theorem ids_unique (g : LGraph) (c : Bool) (h : NodesNodup g) (hp : PrintInjective g c) : (nodeIds g c).Nodup :=
   (ids_unique_iff_print_injective g c h).mpr hp
 
